@@ -22,7 +22,10 @@ def handler(job):
         kw.update(weight="linear_ramp", weight_params=dict(zip(("low", "high", "start", "end"), g["ramp"])))
     pim = PersistenceImager(**kw)
     out = {"attrs": [fl(pim.birth_range[0]), fl(pim.pers_range[0]), fl(pim.pixel_size), int(pim.resolution[0]), int(pim.resolution[1])], "imgs": []}
-    D = [np.array(d, dtype=(np.int64 if job.get("intdtype") else float)).reshape(-1, 2) for d in job["dgms"]]
+    # intdtype: True = every diagram as an integer array; "mixed" = diagrams 0, 4, 5, 7 integer and the others float (the same points
+    # must give the same image whatever the container's dtype)
+    it = job.get("intdtype")
+    D = [np.array(d, dtype=(np.int64 if (it is True or (it == "mixed" and i in (0, 4, 5, 7))) else float)).reshape(-1, 2) for i, d in enumerate(job["dgms"])]
     for call in job["calls"]:
         ids, mode, skew = call["ids"], call["mode"], bool(call["skew"])
         ds = [D[i] for i in ids]      # the SAME array objects are handed over in every call (history matters)
